@@ -436,9 +436,17 @@ def evaluate(term, env, dom, memo=None, summaries=None):
         a = [memo[x] for x in t[1:]]
         v = _apply(k, a, dom)
         if summaries and t in summaries and isinstance(v, IV):
-            from .eft_terms import enclose
+            from .eft_terms import enclose, enclose_cascade
 
-            v = enclose(summaries[t], memo.__getitem__, dom, lambda: v)
+            spec = summaries[t]
+            if spec[0] == "cascade":
+                # spec = ("cascade", variable name, {constant symbol: value}, quadratic, number of items): valid only for this environment
+                _, var_, consts_, q_, n_ = spec
+                V = env.get(var_)
+                if V is not None and all(nm in env and np.all(env[nm].lo == env[nm].hi) and np.all(np.asarray(env[nm].lo, dtype=np.float64) == cv) for nm, cv in consts_.items()):
+                    v = enclose_cascade(q_, n_, V, dom, v)
+            else:
+                v = enclose(spec, memo.__getitem__, dom, lambda: v)
         memo[t] = v
         stack.pop()
     return memo[term]
